@@ -312,3 +312,22 @@ fn c05_packed_slots_and_unaligned_scratch_name_only_accessed_slots() {
     }
     run_cases("c05_packed_and_unaligned", cases);
 }
+
+/// bytes with no assigned opcode in the analysed chain version (0x5c / 0x5d of later forks included) execute no storage
+/// access whatever constants sit on the stack in front of them: storage-free programs built around each of them yield an
+/// empty layout, and next to a real sstore(1, ..) only slot 1 is named
+#[test]
+fn c05_unassigned_bytes_are_not_storage_accesses() {
+    let mut assigned: Vec<u8> = crate::c07_diff::evm_arity().into_iter().map(|t| t.0).collect();
+    assigned.extend([0x00, 0x56, 0x57, 0xf3, 0xfd, 0xfe, 0xff]);
+    let mut cases = vec![];
+    for b in 0..=255u8 {
+        if assigned.contains(&b) { continue; }
+        // PUSH1 1 PUSH1 7 <b> ; then the same again behind a JUMPDEST reached by a fork
+        let c = vec![0x60, 0x01, 0x60, 0x07, b, 0x60, 0x01, 0x60, 0x07, b, 0x00];
+        cases.push(Case { ob: "slots.storage_free_is_empty", what: format!("PUSH1 1 PUSH1 7 {b:#04x} (twice)"), code: c, allowed: BTreeSet::new(), in_value: BTreeSet::new() });
+        let c = vec![0x33, 0x60, 0x01, 0x55, 0x36, 0x60, 0x09, 0x57, 0x00, 0x5b, 0x60, 0x01, 0x60, 0x07, b, 0x00];
+        cases.push(Case { ob: "slots.only_accessed_slots", what: format!("sstore(1, caller); on one branch PUSH1 1 PUSH1 7 {b:#04x}"), code: c, allowed: [U256::ONE].into_iter().collect(), in_value: BTreeSet::new() });
+    }
+    run_cases("c05_unassigned_bytes", cases);
+}
